@@ -1,7 +1,7 @@
 # C11 — $output selects exactly the marked subtrees and hides exactly the excluded ones.
-from .. import core, evalgen, gen, hist, histprop
+from .. import filepass, core, evalgen, gen, hist, histprop
 
-CLI = ()
+CLI = ("bkl",)
 HARNESS = True
 ASSUMPTIONS = ["theorems are about Model.Eval.find_outputs/filter_output/outputs_of; tie to output.go/parser.go is this run's comparison through OutputDocuments",
                "a list element map carrying a boolean $output next to other keys is an extra-keys error (the code's reading; see DESIGN.md C11)"]
@@ -73,7 +73,15 @@ def dist_fn(dist, c, a, b):
 
 def run(ctx):
     n = 2000 if ctx.tier == "quick" else 40000
-    return histprop.run_history_property(ctx, "C11", gen_case, n, RULE, nontrivial, judge=judge, dist_fn=dist_fn)
+    stats = histprop.run_history_property(ctx, "C11", gen_case, n, RULE, nontrivial, judge=judge, dist_fn=dist_fn)
+    rng = core.Rng(ctx.seed + 1)
+    nf = 200 if ctx.tier == "quick" else 4000
+    cases = [gen_case(rng.fork("fc%d" % i)) for i in range(nf)]
+    done = filepass.run_layers_through_files(ctx, [filepass.layers_of_history(c) for c in cases], rng, "C11", "c11-disagreement")
+    stats["distribution"]["through_layer_files"] = done
+    stats["evaluations"] += done
+    stats["disagreements_checked"] = len(ctx.violations)
+    return stats
 
 
 def replay(ctx, payload):
